@@ -81,6 +81,9 @@ def httpReplyBytes (env : Env) : Bytes :=
 def httpRepl (env : Env) (ps : HttpSt) (d : Bytes) : Except Site (HttpSt × Option Bytes) :=
   match httpParse ps d with
   | .error e => .error e
-  | .ok ps' => .ok (ps', if ps'.state = .content then some (httpReplyBytes env) else none)
+  | .ok ps' =>
+    -- the request has been answered: the stored parser state is reset (`*pstate = ProtocolState::new()`),
+    -- the next request on the connection is parsed from scratch
+    if ps'.state = .content then .ok ({}, some (httpReplyBytes env)) else .ok (ps', none)
 
 end Masscanned
